@@ -20,7 +20,6 @@ extern crate lazy_static;
 
 use serde_json::{json, Value};
 use std::cell::Cell;
-use std::collections::BTreeMap;
 use std::sync::{Arc, Condvar, Mutex as StdMutex};
 use std::time::{Duration, Instant};
 use vharness::impls::DefaultWalletImpl;
@@ -30,7 +29,6 @@ use vharness::libwallet::{
 	InitTxArgs, Slate, SlatepackAddress, TxLogEntry, WalletInitStatus, WalletInst,
 };
 use vharness::node::{ChainNode, NodeCtl};
-use vharness::prng::{seed_from_env, Prng};
 use vharness::scen::*;
 use vharness::util::{Mutex, ZeroingString};
 use vharness::*;
@@ -1101,9 +1099,6 @@ fn main() {
 	let only = arg("scenario");
 	let bound = arg_u64("bound", 1000) as u32;
 	let max_runs = arg_u64("max", 1_000_000) as usize;
-	let sample = arg_u64("sample", 0) as usize;
-	let shard = arg_u64("shard", 0) as usize;
-	let nshards = arg_u64("nshards", 1) as usize;
 	let watchdog = Duration::from_secs(arg_u64("watchdog", 90));
 	let prefix: Vec<usize> = arg("prefix")
 		.map(|p| p.split(',').filter(|x| !x.is_empty()).map(|x| x.parse().unwrap()).collect())
@@ -1188,18 +1183,17 @@ fn main() {
 		// ---- DFS over all schedules within the preemption bound
 		let mut stack: Vec<(Vec<usize>, usize)> = vec![];
 		let mut count = 0usize;
-		let mut idx = 0usize;
 		let mut nondet = 0u64;
 		loop {
-			let mine = idx % nshards == shard;
-			idx += 1;
-			if mine {
+			{
 				let mut st = std::mem::take(&mut stack);
 				let mut nd = 0u64;
 				let ro = {
 					let mut ch = |d: usize, en: &[usize]| -> usize {
 						if d < st.len() {
 							if st[d].0 != en {
+								// the same choices led to a different enabled set: the run is not
+								// a function of the schedule
 								nd += 1;
 								st.truncate(d);
 								st.push((en.to_vec(), 0));
@@ -1225,11 +1219,6 @@ fn main() {
 					std::process::exit(3);
 				}
 				count += 1;
-			} else {
-				// another shard runs this schedule; we still need its shape to advance the DFS:
-				// shapes are data dependent, so every shard executes every schedule only when
-				// nshards == 1. With several shards the split is by first-level subtree instead.
-				unreachable!();
 			}
 			// backtrack
 			loop {
@@ -1248,11 +1237,9 @@ fn main() {
 				break;
 			}
 		}
-		let _ = sample;
 		out.line(&json!({"scenario": sc.name, "kind": "footer", "runs": count, "nondeterminism": nondet,
 			"total_ms": t0.elapsed().as_millis() as u64}));
 	}
 	out.finish();
 	let _ = std::fs::remove_dir_all(&root);
-	let _ = (seed_from_env(), Prng::new(0), BTreeMap::<u8, u8>::new());
 }
